@@ -231,6 +231,12 @@ fn mutate(ch: &mut Chooser, mut d: Vec<u8>) -> Vec<u8> {
 }
 
 const GIT_TOKENS: &[&[u8]] = &[
+    // header lines whose "name" in front of the TAB is nothing but odd white space
+    b"--- \x0c\t2019-01-01 00:00:00.000000000 +0000\n",
+    b"+++ \x0b\t\n",
+    b"--- \r\t\n",
+    b"+++ \t\n",
+    b"--- a b\tc d\t\n",
     b"rename from f\n",
     b"rename to g\n",
     b"rename from src/f.c\n",
